@@ -201,7 +201,7 @@ def rule_d(prog, rep):
                 c, pol = strip_not(it[1])
                 if c.get('k') == 'call' and short(callee(c)) == 'is_pstate_subscriber':
                     ps = (it[2] == pol)
-                if c.get('k') == 'path' and c.get('name') == 'deleted' and b.origins(c) == {'param(deleted)'}:
+                if c.get('k') == 'path' and b.origins(c) == {'param(deleted)'}:
                     dl = (it[2] == pol)
             ev = ctor_name(b.deref_local(nd['args'][1])) or '?'
             seen[(ps, dl)] = (short(callee(nd)), ev, nd)
@@ -249,7 +249,8 @@ def rule_e(prog, rep):
             continue
         nd, anc = sends[0]
         g = guards(anc + (nd,))
-        live = [it for it in g if it[0] == 'if' and strip_not(it[1])[0].get('name') == 'live_only']
+        live = [it for it in g if it[0] == 'if' and strip_not(it[1])[0].get('k') == 'path' and
+                b.origins(strip_not(it[1])[0]) == {'param(live_only)'}]
         cond_ok = len(live) == 1 and (live[0][2] != strip_not(live[0][1])[1]) and \
             b.origins(strip_not(live[0][1])[0]) == {'param(live_only)'}
         same = b.origins(nd['args'][0]) == b.origins(regs[0]['args'][0]) and \
@@ -405,5 +406,15 @@ def rule_g(prog, rep):
             rep.ok('C03.g', f'{short(name)}:fifo', f.loc, 'no spawn inside the forwarder')
 
 
-RULES = [('C03.a', rule_a), ('C03.b', rule_b), ('C03.c', rule_c), ('C03.d', rule_d), ('C03.e', rule_e), ('C03.f', rule_f),
+def rule_h(prog, rep):
+    rep.rule('C03.h', 'T2', 'an aggregated pattern subscription loses and reorders nothing per key: the aggregator flushes its '
+             'buffers before it would overwrite a buffered event of the same key or mix sets and deletes (= C16.a), and a flush '
+             'drains both insertion-ordered buffers into events of their own kind (= C16.b)')
+    from . import c16
+    px = Proxy(rep, 'C03.h')
+    c16.rule_a(prog, px)
+    c16.rule_b(prog, px)
+
+
+RULES = [('C03.h', rule_h), ('C03.a', rule_a), ('C03.b', rule_b), ('C03.c', rule_c), ('C03.d', rule_d), ('C03.e', rule_e), ('C03.f', rule_f),
          ('C03.g', rule_g)]
